@@ -146,10 +146,50 @@ func New(opts Options) (CommitLog, error) {
 		return nil, err
 	}
 
+	// The leader epoch cache is updated after the log is written, so after a
+	// crash it can be missing the epochs of the last messages written.
+	if err := l.recoverLeaderEpochs(); err != nil {
+		return nil, err
+	}
+
 	go l.checkpointHWLoop()
 	go l.cleanerLoop()
 
 	return l, nil
+}
+
+// recoverLeaderEpochs assigns the leader epochs of messages at the end of the
+// log which are newer than the latest epoch in the leader epoch cache. This
+// only has to look at the active segment since the cache is flushed on every
+// assignment.
+func (l *commitLog) recoverLeaderEpochs() error {
+	var (
+		seg  = l.activeSegment()
+		last = &entry{}
+		n    = seg.Index.CountEntries()
+	)
+	if n == 0 {
+		return nil
+	}
+	if err := seg.Index.ReadEntryAtLogOffset(last, n-1); err != nil {
+		return err
+	}
+	header := make(messageSet, msgSetHeaderLen)
+	if _, err := seg.ReadAt(header, last.Position); err != nil {
+		return err
+	}
+	if header.LeaderEpoch() <= l.leaderEpochCache.LastLeaderEpoch() {
+		return nil
+	}
+	ss := newSegmentScanner(seg)
+	for ms, _, err := ss.Scan(); err == nil; ms, _, err = ss.Scan() {
+		if epoch := ms.LeaderEpoch(); epoch > l.leaderEpochCache.LastLeaderEpoch() {
+			if err := l.leaderEpochCache.Assign(epoch, ms.Offset()); err != nil {
+				return err
+			}
+		}
+	}
+	return nil
 }
 
 func (l *commitLog) init() error {
